@@ -23,7 +23,6 @@ OBJ_CLASSES = ('Entity', 'Attribute', 'SetInstance', 'Multiset', 'SetIterator')
 # public object-bound function -> reason it needs no liveness test of its own
 EXCEPTIONS = {
     'Entity.__init__': "creates a new object in the current session; there is no finished session to guard",
-    'Attribute.validate': "obj may be an object being constructed; raw pk lookups go through _get_by_raw_pkval_ which does not query",
     'Entity.get_pk': "reads _pkval_/_vals_ only",
     'Entity.find_updated_attributes': "diagnostic helper for OptimisticCheckError messages, called only from _save_updated_ during a flush "
                                       "(SessionCache.flush asserts is_alive); not a documented operation on objects",
@@ -59,9 +58,8 @@ def alive_dataflow(ctx, fn, g):
             if c is not None:
                 if lab == 'T': return frozenset([c[0]])
                 if lab == 'F': return frozenset([c[1]])
-        if n.kind == 'stmt' and isinstance(n.ast, ast.Assert) and lab != 'exc':
-            c = classify(n.ast.test)
-            if c is not None: return frozenset([c[0]])
+        # `assert cache.is_alive` is deliberately NOT a guard: it documents an internal invariant, raises AssertionError
+        # rather than the session-is-over error, and disappears under -O; the obligation passes to the callers
         return state
     return g.forward(['unknown'], transfer)
 
@@ -88,7 +86,10 @@ def is_state_store(st, fn):
     elif isinstance(st, ast.AugAssign): tgts = [st.target]
     for t in tgts:
         for x in ([t] + (list(t.elts) if isinstance(t, ast.Tuple) else [])):
-            if isinstance(x, ast.Subscript) and isinstance(x.value, ast.Attribute) and x.value.attr in ('_vals_',): return True
+            if isinstance(x, ast.Subscript) and isinstance(x.value, ast.Attribute) and x.value.attr in ('_vals_',):
+                # `setdata = obj._vals_[attr] = SetData()` only creates an empty, not-loaded placeholder slot
+                if isinstance(st, ast.Assign) and norm(st.value) == 'SetData()': continue
+                return True
             if isinstance(x, ast.Attribute) and x.attr in ('_status_', '_wbits_'): return True
     if isinstance(st, ast.Expr) and isinstance(st.value, ast.Call) and isinstance(st.value.func, ast.Attribute) \
             and st.value.func.attr == 'append' and 'objects_to_save' in norm(st.value.func.value): return True
@@ -108,6 +109,7 @@ def run(ctx):
     for cn in OBJ_CLASSES:
         obj_cls |= set(repo.subclasses(repo.cls(CORE, cn)))
     funcs = [f for f in repo.rule_funcs() if f.mod is core]
+    attr_base = repo.cls(CORE, 'Attribute')
     # ---- interprocedural fixpoint: NEEDS = functions that reach the database on a path without their own liveness test
     needs = {}      # Fn.full -> (call node, reason chain)
     for q in ROOTS: needs[CORE + '.' + q] = (None, [q])
@@ -116,6 +118,14 @@ def run(ctx):
         if f.full not in flows:
             g = cg.cfg(f); flows[f.full] = (g, alive_dataflow(ctx, f, g))
         return flows[f.full]
+    # seeds of the second kind: functions that store into an object's session state on a path without a liveness test
+    for f in funcs:
+        if f.full in needs or f.parent is not None: continue
+        if f.cls is not None and f.cls.name in CURRENT_SESSION_CLASSES: continue
+        if not any(is_state_store(st, f) for st in walk_no_nested(f.node) if isinstance(st, ast.stmt)): continue
+        g, IN = flow(f)
+        und = [n for n in g.nodes if n.kind == 'stmt' and n.id in IN and is_state_store(n.ast, f) and IN[n.id] != frozenset(['alive'])]
+        if und: needs[f.full] = (und[0].ast, [f.qual + ' writes session state (line %d)' % und[0].lineno])
     changed = True; rounds = 0
     while changed:
         changed = False; rounds += 1
@@ -138,6 +148,7 @@ def run(ctx):
     n_entry = 0
     for f in funcs:
         if f.cls not in obj_cls or f.parent is not None or not is_public(f): continue
+        if attr_base in repo.mro(f.cls) and f.name not in ATTR_API: continue      # internal protocol of descriptors
         bound = (f.cls.name in ('Entity',) or repo.cls(CORE, 'Entity') in repo.mro(f.cls)) and f.recv is not None and not f.is_classmethod \
             or 'obj' in f.params or f.cls.name in ('SetInstance', 'Multiset', 'SetIterator') or repo.cls(CORE, 'SetInstance') in repo.mro(f.cls)
         if not bound: continue
@@ -173,6 +184,9 @@ def run(ctx):
     ctx.floor('C32-LIVE', n_entry, 18, 'public object-bound operations examined')
 
 
+# the descriptor API of the Attribute hierarchy; its other public-looking methods (validate, update_reverse, db_set, ...)
+# are the internal protocol between descriptors and are reached only through these or through Entity/SetInstance operations
+ATTR_API = {'__get__', '__set__', '__delete__', 'load', 'copy'}
 MUTATING = {'set', 'delete', 'add', 'remove', 'clear', 'create', '__iadd__', '__isub__', 'flush', 'load', 'update'}
 
 MUTANTS = [
